@@ -867,4 +867,49 @@ theorem stackRead_combined_overlap (st : Stored) (rq : Req) (d : DType) (wf : Wf
   · exact ⟨k, hk, hcase k hov⟩
 
 
+
+theorem foldlM_error_of_mem {α β} (f : α → β → Except ErrKind α) (l : List β) (init : α)
+    (h : ∃ r ∈ l, ∀ a, ∃ e, f a r = .error e) : ∃ e, l.foldlM f init = .error e := by
+  induction l generalizing init with
+  | nil => obtain ⟨r, hr, _⟩ := h; cases hr
+  | cons x t ih =>
+    rw [List.foldlM_cons]
+    cases hx : f init x with
+    | error e => exact ⟨e, rfl⟩
+    | ok a' =>
+      simp only [bind, Except.bind]
+      obtain ⟨r, hr, hall⟩ := h
+      rcases List.mem_cons.mp hr with rfl | hrt
+      · obtain ⟨e, he⟩ := hall init
+        rw [hx] at he; cases he
+      · exact ih a' ⟨r, hrt, hall⟩
+
+theorem mapM_error_of_mem {α β} (f : α → Except ErrKind β) (l : List α)
+    (h : ∃ x ∈ l, ∃ e, f x = .error e) : ∃ e, l.mapM f = .error e := by
+  induction l with
+  | nil => obtain ⟨x, hx, _⟩ := h; cases hx
+  | cons a t ih =>
+    rw [List.mapM_cons]
+    cases ha : f a with
+    | error e => exact ⟨e, rfl⟩
+    | ok y =>
+      obtain ⟨x, hx, e, he⟩ := h
+      rcases List.mem_cons.mp hx with rfl | hxt
+      · rw [ha] at he; cases he
+      · obtain ⟨e', he'⟩ := ih ⟨x, hxt, e, he⟩
+        exact ⟨e', by simp only [bind, Except.bind, he']⟩
+
+/-- a FRACTIONAL frame with a value other than 0 and MaximumFractionalValue stops the combination loop -/
+theorem combineStep_nonbinary (mfv : Nat) (skip : Bool) (d : DType) (acc : List Int) (r : SFrame × Nat)
+    (h : ∃ p ∈ r.1.pix, p ≠ 0 ∧ p ≠ mfv) : ∃ e, combineStep .fractional mfv skip d acc r = .error e := by
+  unfold combineStep
+  by_cases hm : mfv = 0
+  · exact ⟨.other, by simp [hm, bind, Except.bind]⟩
+  · have : r.1.pix.all (fun p => p == 0 || p == mfv) = false := by
+      rw [List.all_eq_false]
+      obtain ⟨p, hp, h0, h1⟩ := h
+      exact ⟨p, hp, by simp [h0, h1]⟩
+    exact ⟨.value, by simp [hm, this, bind, Except.bind]⟩
+
+
 end HdVerif.SegReadLemmas
